@@ -1,0 +1,44 @@
+//! A source adapter checking the IRIs built by the underlying Rio parser.
+use rio_turtle::TurtleError;
+use sophia_api::source::{Source, StreamError::SourceError, StreamResult};
+use sophia_rio::model::CheckIris;
+use std::io;
+
+/// The [`Source`] produced by the parsers of syntaxes with prefixed names (Turtle, TriG and generalized TriG).
+///
+/// It yields the items of the underlying Rio-based source,
+/// after checking that their IRIs are valid:
+/// Rio builds the IRI of a prefixed name by concatenating the namespace and the local name,
+/// without checking the result (e.g. `@prefix p: <x://h:8> .` then `p:a` gives `<x://h:8a>`).
+pub struct IriCheckedSource<S>(pub(crate) S);
+
+impl<S> Source for IriCheckedSource<S>
+where
+    S: Source<Error = TurtleError>,
+    for<'x> S::Item<'x>: CheckIris,
+{
+    type Item<'x> = S::Item<'x>;
+
+    type Error = TurtleError;
+
+    fn try_for_some_item<EF, F>(&mut self, mut f: F) -> StreamResult<bool, Self::Error, EF>
+    where
+        EF: std::error::Error + Send + Sync + 'static,
+        F: FnMut(Self::Item<'_>) -> Result<(), EF>,
+    {
+        let mut invalid: Option<String> = None;
+        let more = self.0.try_for_some_item(|i| {
+            if invalid.is_none() {
+                invalid = i.first_invalid_iri().map(String::from);
+            }
+            // NB: nothing is yielded from the invalid item on; the error is raised below
+            if invalid.is_none() { f(i) } else { Ok(()) }
+        })?;
+        match invalid {
+            None => Ok(more),
+            Some(iri) => Err(SourceError(
+                io::Error::new(io::ErrorKind::InvalidData, format!("invalid IRI <{iri}>")).into(),
+            )),
+        }
+    }
+}
